@@ -669,6 +669,18 @@ func propTable() map[string]*PropSpec {
 				}
 			}
 		}
+		// the transport reports an error for the NEW_VIEW broadcast of the elected leader; then late votes
+		for _, me := range []int{1, 2, 3} {
+			for _, seq := range []int{8, 88} {
+				c := mk(me, 8, map[int]int{8: 1, 88: 2}[seq], seq)
+				c.Name += "/sendfail=2"
+				c.Params["sendfail"] = 2
+				th = append(th, c)
+				if me == 2 && seq == 8 {
+					q = append(q, c)
+				}
+			}
+		}
 		// the transport reports an error for a PREPARE broadcast; a node that committed but whose callback failed
 		for _, me := range []int{1, 2} {
 			sf := mk(me, 0, 2, 0)
